@@ -7,6 +7,7 @@ mkdir -p /tmp/confirm; rm -f "$out"
 git -C /repo worktree remove --force "$wt" 2>/dev/null; rm -rf "$wt"
 git -C /repo worktree add -q --detach "$wt" HEAD || { echo "worktree failed" > "$out"; exit 1; }
 cd "$wt"
+echo "HEAD: $(git rev-parse --short HEAD)" >> "$out"
 log() { echo "$@" | tee -a "$out"; }
 if ! git apply "$src/patch.diff" 2>>"$out"; then log "APPLY: FAIL"; git -C /repo worktree remove --force "$wt"; exit 1; fi
 log "APPLY: ok"
